@@ -18,18 +18,18 @@ IsSmallThickPoly == /\ "d" \in DOMAIN cur /\ "kind" \in DOMAIN cur.d /\ cur.d.ki
                     /\ \A k \in 1..Len(cur.d.shape.v) : \A c \in 1..2 : cur.d.shape.v[k][c] >= -80 /\ cur.d.shape.v[k][c] <= 80
                     /\ \A c \in 1..2 : cur.d.shape.off[c] >= -1000 /\ cur.d.shape.off[c] <= 1000
                     /\ cur.d.style.w >= 2 /\ cur.d.style.w <= 12 /\ cur.d.style.stroke >= 0
-\* DRIFT: centre-aligned thick triangle strokes (with or without fill) vs EGThickTri
+\* DRIFT: stroked triangles of every alignment (with or without fill) vs EGThickTri
 IsSmallThickTri == /\ "d" \in DOMAIN cur /\ "kind" \in DOMAIN cur.d /\ cur.d.kind = "prim" /\ "shape" \in DOMAIN cur.d
                    /\ cur.d.shape.k = "triangle" /\ DOMAIN cur.d = {"kind", "shape", "style"}
                    /\ \A k \in 1..3 : \A c \in 1..2 : cur.d.shape.v[k][c] >= -80 /\ cur.d.shape.v[k][c] <= 80
-                   /\ cur.d.style.al = 1 /\ cur.d.style.w >= 2 /\ cur.d.style.w <= 12 /\ cur.d.style.stroke >= 0
+                   /\ cur.d.style.al \in {0, 1, 2} /\ cur.d.style.w >= 1 /\ cur.d.style.w <= 12 /\ cur.d.style.stroke >= 0
                    /\ DOMAIN cur.d.style = {"al", "fill", "stroke", "w"}
 ShiftBox(b, o) == <<b[1] + o[1], b[2] + o[2], b[3], b[4]>>
 ShiftSet(S, o) == { <<p[1] + o[1], p[2] + o[2]>> : p \in S }
 StepDraw(e)  == e.ev = "draw" /\ UNCHANGED cur /\
-  DriftReport(e.case, ~IsSmallThickTri \/ e.bbox = TriThickBoxT(cur.d.shape.v, cur.d.style.w),
+  DriftReport(e.case, ~IsSmallThickTri \/ e.bbox = TriStyledBoxT(cur.d.shape.v, cur.d.style.w, cur.d.style.al),
               "thick_triangle_bounding_box_transcription", [shape |-> cur.d.shape, w |-> cur.d.style.w, bbox |-> e.bbox]) /\
-  DriftReport(e.case, ~IsSmallThickTri \/ RunsToSet(e.touched) = TriThickSetT(cur.d.shape.v, cur.d.style.w, cur.d.style.fill >= 0, TRUE),
+  DriftReport(e.case, ~IsSmallThickTri \/ RunsToSet(e.touched) = TriThickSetT(cur.d.shape.v, cur.d.style.w, cur.d.style.fill >= 0, TRUE, cur.d.style.al),
               "thick_triangle_pixels_transcription", [shape |-> cur.d.shape, style |-> cur.d.style]) /\
   DriftReport(e.case, ~IsSmallThickPoly \/ e.bbox = ShiftBox(PolyThickBoxT(cur.d.shape.v, cur.d.style.w), cur.d.shape.off),
               "thick_polyline_bounding_box_transcription", [shape |-> cur.d.shape, w |-> cur.d.style.w, bbox |-> e.bbox]) /\
